@@ -220,6 +220,7 @@ func C12(c *core.Ctx) {
 		if res.Len() != 1 || !types.Identical(res.At(0).Type(), types.Typ[types.Bool]) {
 			continue
 		}
+		fn = core.Forwarded(fn) // (a validator split into wrapper + worker is analysed at the worker)
 		nV++
 		c.Funcs[core.FuncName(fn)] = true
 		sig := ssa.Value(fn.Params[1])
